@@ -44,7 +44,9 @@ EXPLANATION = (
     "(`source_idx`, and its target counterpart) with a default, the result is not tested by truthiness when the stored value is a "
     "single index (index 0 is legal): presence is decided by membership, comparison with None or a raising look-up.  R9 wherever a "
     "get_nodes result is used by position (enumerate / zip / index / range(len)), it reaches that use in the resolver's order: "
-    "copies are fine, sorted / np.sort / np.unique / set / reversed / [::-1] / argsort indexing / in-place sort are reported.  NOT decided: that get_nodes enumerates wildcards in declaration "
+    "copies are fine, sorted / np.sort / np.unique / set / reversed / [::-1] / argsort indexing / in-place sort are reported.  R10 update_var (helpers spliced in) writes a node template in place only when it is "
+    "a copy made for this node, or when a registry licenses the write (`id(x) in R`) and no object that is handed to a further node "
+    "(read back from a container, given to add_node_template again) can stay registered in R on that path.  NOT decided: that get_nodes enumerates wildcards in declaration "
     "order for every hierarchy (dict insertion order, library guarantee), the numerical values, what the backend does with the index."
 )
 RULE_TEXT = ("R1: one obligation per sink (call of get_nodes/_get_var_idx resolved through the call graph, subscript of the index "
@@ -2083,7 +2085,8 @@ def r10_in_place_write_only_on_unshared(ctx, rid):
     that ONE node holds: an object that is re-used for a further node (read back from a container and handed to
     add_node_template again) while it may be registered in R has to be removed from R on that path.  Otherwise a later, narrower
     key writes into a template that sibling nodes hold too, and the path no longer denotes only the nodes it names."""
-    f = ctx.repo.get_func(REL, f"{CLS}.update_var")
+    f0 = ctx.repo.get_func(REL, f"{CLS}.update_var")
+    f = inlined(ctx, f0, keep=("get_node_template", "add_node_template", "get_nodes"))      # per-key helpers are spliced in
     rd = ctx.rd(f)
     cfg = ctx.cfg(f)
     eff = ctx.effects
@@ -2142,16 +2145,16 @@ def r10_in_place_write_only_on_unshared(ctx, rid):
         if not ks or any(k == "other" for k, _, _ in ks):
             raise AnalysisError(f"{rid}: cannot tell where the template `{x.id}` written by `{txt}` comes from (unrecognised form)")
         if all(k == "copy" for k, _, _ in ks):
-            ctx.ok(rid, f, c, f"`{x.id}` is a copy made for this node before it is written", label=label)
+            ctx.ok(rid, f0, c, f"`{x.id}` is a copy made for this node before it is written", label=label)
             continue
         lic = [r for r, key in licences(c) if any(isinstance(n, ast.Name) and n.id == x.id for n in ast.walk(key))]
         if not lic:
-            ctx.violation(rid, f, c, f"`{txt}` writes into the template object that get_node_template returned (or that was re-used from a "
+            ctx.violation(rid, f0, c, f"`{txt}` writes into the template object that get_node_template returned (or that was re-used from a "
                                      f"container) without copying it: node templates are shared between nodes and circuits, so nodes "
                                      f"that the path does not denote change too", label=label)
             continue
         licence_regs |= set(lic)
-        ctx.ok(rid, f, c, f"`{x.id}` is written in place only when it is registered in {sorted(set(lic))}", label=label)
+        ctx.ok(rid, f0, c, f"`{x.id}` is written in place only when it is registered in {sorted(set(lic))}", label=label)
     # ---- a licence registry holds only objects of ONE node
     for R in sorted(licence_regs):
         def stores_into(cont):
@@ -2195,7 +2198,20 @@ def r10_in_place_write_only_on_unshared(ctx, rid):
                 base = v
                 while isinstance(base, ast.Subscript):
                     base = base.value
-                both = any(any(id(dd) in registered_defs for dd in rd.defs_reaching(n)) for st, names in stores_into(base.id) for n in names)
+                # ... only if one and the same object is stored into R and into that container: a path leads from one store to
+                # the other without the stored local being re-bound in between
+                both = False
+                for st_s, names_s in stores_into(base.id):
+                    for n in names_s:
+                        for dd in rd.defs_reaching(n):
+                            if id(dd) not in registered_defs:
+                                continue
+                            for st_r, names_r in reg_stores:
+                                if not any(any(d2 is dd for d2 in rd.defs_reaching(m_)) for m_ in names_r):
+                                    continue
+                                if st_r is st_s or cfg.reachable_avoiding(st_r, st_s, lambda x_: x_ is dd) is not None \
+                                        or cfg.reachable_avoiding(st_s, st_r, lambda x_: x_ is dd) is not None:
+                                    both = True
                 if not both:
                     continue
                 st_c = stmt_of(cfg, c)
@@ -2203,10 +2219,10 @@ def r10_in_place_write_only_on_unshared(ctx, rid):
                 if path is not None:
                     bad = (d, base.id, cfg.path_str(path))
             if bad is None:
-                ctx.ok(rid, f, c, f"no object that is handed to a further node stays registered in `{R}`", label=label)
+                ctx.ok(rid, f0, c, f"no object that is handed to a further node stays registered in `{R}`", label=label)
             else:
                 d, cont, witness = bad
-                ctx.violation(rid, f, d, f"`{norm(d)}` takes a template back out of `{cont}` - it was given to an earlier node already - and "
+                ctx.violation(rid, f0, d, f"`{norm(d)}` takes a template back out of `{cont}` - it was given to an earlier node already - and "
                                          f"`{norm(c)}` hands it to this node as well, while the same object may still be registered in `{R}`, "
                                          f"which licenses in-place writes: a later key that addresses only one of these nodes writes into the "
                                          f"template all of them hold, so nodes outside the path change too",
